@@ -106,3 +106,251 @@ package chord
 //@ lemma bv_ring_next_id: forall n uint64 :: ((n + 1) & (1<<48 - 1)) < 1<<48
 //@ lemma bv_ring_hop_decreases: forall n, f, key uint64 :: (n < 1<<48 && f < 1<<48 && key < 1<<48 && between48(n, f, key, false)) ==> dist48(f + 1, key) < dist48(n + 1, key)
 //@ lemma bv_ring_successor_hop_decreases: forall n, s, key uint64 :: (n < 1<<48 && s < 1<<48 && key < 1<<48 && !between48(n, key, s, true)) ==> dist48(s + 1, key) < dist48(n + 1, key)
+
+// ---- C15: the retrying KV wrapper (wiring; the retry loop itself is the library's)
+
+//@ func (n *retryableWrapper) retryOptions(ctx context.Context) (r []retry.Option)
+//@   opt frame=off
+//@   ensures policy: len(r) == 6 && r[0] == retry.Context(ctx) && r[1] == retry.Attempts(n.retryAttempts) && r[2] == retry.Delay(n.retryInterval) && r[4] == retry.RetryIf(ErrorIsRetryable) && r[5] == retry.LastErrorOnly(true)
+
+//@ func ErrorIsRetryable(err error) (r bool)
+//@   opt frame=off
+//@   ghost w int = -1
+//@   at return#1: ghost w := rangeindex
+//@   ensures local-true-only-for-a-registered-retryable-error: r ==> (0 <= w && w < len(retryableErrs) && errors.Is(err, retryableErrs[w]))
+//@   ensures false-only-if-none-matches: !r ==> (forall i int :: 0 <= i && i < len(retryableErrs) ==> !errors.Is(err, retryableErrs[i]))
+//@   loop e: invariant idx: -1 <= rangeindex && rangeindex < len(retryableErrs)
+//@   loop e: invariant none-so-far: forall i int :: 0 <= i && i <= rangeindex ==> !errors.Is(err, retryableErrs[i])
+
+//@ func (n *retryableWrapper) Put(ctx, key, value) (err error)
+//@   safety off
+//@   opt frame=off
+//@   ghost opts []retry.Option
+//@   ghost g_err error
+//@   at call retryOptions#1: assert policy-for-this-context: callarg1 == ctx
+//@   at after call retryOptions#1: ghost opts := callresult
+//@   at call Do#1: assert uses-the-retry-policy: sameBacking(callarg1, opts) && len(callarg1) == len(opts)
+//@   at after call Do#1: ghost g_err := callresult
+//@   ensures returns-what-retry-returns: err == g_err
+
+//@ func (n *retryableWrapper) Put$1() (err error)
+//@   safety off
+//@   opt frame=off
+//@   ghost g_err error
+//@   at call Put#1: assert same-arguments: callarg0 == ctx && callarg1 == key && callarg2 == value
+//@   at after call Put#1: ghost g_err := callresult
+//@   ensures forwards-the-wrapped-node-result: err == g_err
+
+//@ func (n *retryableWrapper) Get(ctx, key) (value []byte, err error)
+//@   safety off
+//@   opt frame=off
+//@   ghost opts []retry.Option
+//@   ghost g_value []byte
+//@   ghost g_err error
+//@   at call retryOptions#1: assert policy-for-this-context: callarg1 == ctx
+//@   at after call retryOptions#1: ghost opts := callresult
+//@   at call DoWithData#1: assert uses-the-retry-policy: sameBacking(callarg1, opts) && len(callarg1) == len(opts)
+//@   at after call DoWithData#1: ghost g_value := callresult0
+//@   at after call DoWithData#1: ghost g_err := callresult1
+//@   ensures returns-what-retry-returns: value == g_value && err == g_err
+
+//@ func (n *retryableWrapper) Get$1() (value []byte, err error)
+//@   safety off
+//@   opt frame=off
+//@   ghost g_value []byte
+//@   ghost g_err error
+//@   at call Get#1: assert same-arguments: callarg0 == ctx && callarg1 == key
+//@   at after call Get#1: ghost g_value := callresult0
+//@   at after call Get#1: ghost g_err := callresult1
+//@   ensures forwards-the-wrapped-node-result: value == g_value && err == g_err
+
+//@ func (n *retryableWrapper) Delete(ctx, key) (err error)
+//@   safety off
+//@   opt frame=off
+//@   ghost opts []retry.Option
+//@   ghost g_err error
+//@   at call retryOptions#1: assert policy-for-this-context: callarg1 == ctx
+//@   at after call retryOptions#1: ghost opts := callresult
+//@   at call Do#1: assert uses-the-retry-policy: sameBacking(callarg1, opts) && len(callarg1) == len(opts)
+//@   at after call Do#1: ghost g_err := callresult
+//@   ensures returns-what-retry-returns: err == g_err
+
+//@ func (n *retryableWrapper) Delete$1() (err error)
+//@   safety off
+//@   opt frame=off
+//@   ghost g_err error
+//@   at call Delete#1: assert same-arguments: callarg0 == ctx && callarg1 == key
+//@   at after call Delete#1: ghost g_err := callresult
+//@   ensures forwards-the-wrapped-node-result: err == g_err
+
+//@ func (n *retryableWrapper) PrefixAppend(ctx, prefix, child) (err error)
+//@   safety off
+//@   opt frame=off
+//@   ghost opts []retry.Option
+//@   ghost g_err error
+//@   at call retryOptions#1: assert policy-for-this-context: callarg1 == ctx
+//@   at after call retryOptions#1: ghost opts := callresult
+//@   at call Do#1: assert uses-the-retry-policy: sameBacking(callarg1, opts) && len(callarg1) == len(opts)
+//@   at after call Do#1: ghost g_err := callresult
+//@   ensures returns-what-retry-returns: err == g_err
+
+//@ func (n *retryableWrapper) PrefixAppend$1() (err error)
+//@   safety off
+//@   opt frame=off
+//@   ghost g_err error
+//@   at call PrefixAppend#1: assert same-arguments: callarg0 == ctx && callarg1 == prefix && callarg2 == child
+//@   at after call PrefixAppend#1: ghost g_err := callresult
+//@   ensures forwards-the-wrapped-node-result: err == g_err
+
+//@ func (n *retryableWrapper) PrefixList(ctx, prefix) (children [][]byte, err error)
+//@   safety off
+//@   opt frame=off
+//@   ghost opts []retry.Option
+//@   ghost g_children [][]byte
+//@   ghost g_err error
+//@   at call retryOptions#1: assert policy-for-this-context: callarg1 == ctx
+//@   at after call retryOptions#1: ghost opts := callresult
+//@   at call DoWithData#1: assert uses-the-retry-policy: sameBacking(callarg1, opts) && len(callarg1) == len(opts)
+//@   at after call DoWithData#1: ghost g_children := callresult0
+//@   at after call DoWithData#1: ghost g_err := callresult1
+//@   ensures returns-what-retry-returns: children == g_children && err == g_err
+
+//@ func (n *retryableWrapper) PrefixList$1() (children [][]byte, err error)
+//@   safety off
+//@   opt frame=off
+//@   ghost g_children [][]byte
+//@   ghost g_err error
+//@   at call PrefixList#1: assert same-arguments: callarg0 == ctx && callarg1 == prefix
+//@   at after call PrefixList#1: ghost g_children := callresult0
+//@   at after call PrefixList#1: ghost g_err := callresult1
+//@   ensures forwards-the-wrapped-node-result: children == g_children && err == g_err
+
+//@ func (n *retryableWrapper) PrefixContains(ctx, prefix, child) (ok bool, err error)
+//@   safety off
+//@   opt frame=off
+//@   ghost opts []retry.Option
+//@   ghost g_ok bool
+//@   ghost g_err error
+//@   at call retryOptions#1: assert policy-for-this-context: callarg1 == ctx
+//@   at after call retryOptions#1: ghost opts := callresult
+//@   at call DoWithData#1: assert uses-the-retry-policy: sameBacking(callarg1, opts) && len(callarg1) == len(opts)
+//@   at after call DoWithData#1: ghost g_ok := callresult0
+//@   at after call DoWithData#1: ghost g_err := callresult1
+//@   ensures returns-what-retry-returns: ok == g_ok && err == g_err
+
+//@ func (n *retryableWrapper) PrefixContains$1() (ok bool, err error)
+//@   safety off
+//@   opt frame=off
+//@   ghost g_ok bool
+//@   ghost g_err error
+//@   at call PrefixContains#1: assert same-arguments: callarg0 == ctx && callarg1 == prefix && callarg2 == child
+//@   at after call PrefixContains#1: ghost g_ok := callresult0
+//@   at after call PrefixContains#1: ghost g_err := callresult1
+//@   ensures forwards-the-wrapped-node-result: ok == g_ok && err == g_err
+
+//@ func (n *retryableWrapper) PrefixRemove(ctx, prefix, child) (err error)
+//@   safety off
+//@   opt frame=off
+//@   ghost opts []retry.Option
+//@   ghost g_err error
+//@   at call retryOptions#1: assert policy-for-this-context: callarg1 == ctx
+//@   at after call retryOptions#1: ghost opts := callresult
+//@   at call Do#1: assert uses-the-retry-policy: sameBacking(callarg1, opts) && len(callarg1) == len(opts)
+//@   at after call Do#1: ghost g_err := callresult
+//@   ensures returns-what-retry-returns: err == g_err
+
+//@ func (n *retryableWrapper) PrefixRemove$1() (err error)
+//@   safety off
+//@   opt frame=off
+//@   ghost g_err error
+//@   at call PrefixRemove#1: assert same-arguments: callarg0 == ctx && callarg1 == prefix && callarg2 == child
+//@   at after call PrefixRemove#1: ghost g_err := callresult
+//@   ensures forwards-the-wrapped-node-result: err == g_err
+
+//@ func (n *retryableWrapper) Acquire(ctx, lease, ttl) (token uint64, err error)
+//@   safety off
+//@   opt frame=off
+//@   ghost opts []retry.Option
+//@   ghost g_token uint64
+//@   ghost g_err error
+//@   at call retryOptions#1: assert policy-for-this-context: callarg1 == ctx
+//@   at after call retryOptions#1: ghost opts := callresult
+//@   at call DoWithData#1: assert uses-the-retry-policy: sameBacking(callarg1, opts) && len(callarg1) == len(opts)
+//@   at after call DoWithData#1: ghost g_token := callresult0
+//@   at after call DoWithData#1: ghost g_err := callresult1
+//@   ensures returns-what-retry-returns: token == g_token && err == g_err
+
+//@ func (n *retryableWrapper) Acquire$1() (token uint64, err error)
+//@   safety off
+//@   opt frame=off
+//@   ghost g_token uint64
+//@   ghost g_err error
+//@   at call Acquire#1: assert same-arguments: callarg0 == ctx && callarg1 == lease && callarg2 == ttl
+//@   at after call Acquire#1: ghost g_token := callresult0
+//@   at after call Acquire#1: ghost g_err := callresult1
+//@   ensures forwards-the-wrapped-node-result: token == g_token && err == g_err
+
+//@ func (n *retryableWrapper) Renew(ctx, lease, ttl, prevToken) (newToken uint64, err error)
+//@   safety off
+//@   opt frame=off
+//@   ghost opts []retry.Option
+//@   ghost g_newToken uint64
+//@   ghost g_err error
+//@   at call retryOptions#1: assert policy-for-this-context: callarg1 == ctx
+//@   at after call retryOptions#1: ghost opts := callresult
+//@   at call DoWithData#1: assert uses-the-retry-policy: sameBacking(callarg1, opts) && len(callarg1) == len(opts)
+//@   at after call DoWithData#1: ghost g_newToken := callresult0
+//@   at after call DoWithData#1: ghost g_err := callresult1
+//@   ensures returns-what-retry-returns: newToken == g_newToken && err == g_err
+
+//@ func (n *retryableWrapper) Renew$1() (newToken uint64, err error)
+//@   safety off
+//@   opt frame=off
+//@   ghost g_newToken uint64
+//@   ghost g_err error
+//@   at call Renew#1: assert same-arguments: callarg0 == ctx && callarg1 == lease && callarg2 == ttl && callarg3 == prevToken
+//@   at after call Renew#1: ghost g_newToken := callresult0
+//@   at after call Renew#1: ghost g_err := callresult1
+//@   ensures forwards-the-wrapped-node-result: newToken == g_newToken && err == g_err
+
+//@ func (n *retryableWrapper) Release(ctx, lease, token) (err error)
+//@   safety off
+//@   opt frame=off
+//@   ghost opts []retry.Option
+//@   ghost g_err error
+//@   at call retryOptions#1: assert policy-for-this-context: callarg1 == ctx
+//@   at after call retryOptions#1: ghost opts := callresult
+//@   at call Do#1: assert uses-the-retry-policy: sameBacking(callarg1, opts) && len(callarg1) == len(opts)
+//@   at after call Do#1: ghost g_err := callresult
+//@   ensures returns-what-retry-returns: err == g_err
+
+//@ func (n *retryableWrapper) Release$1() (err error)
+//@   safety off
+//@   opt frame=off
+//@   ghost g_err error
+//@   at call Release#1: assert same-arguments: callarg0 == ctx && callarg1 == lease && callarg2 == token
+//@   at after call Release#1: ghost g_err := callresult
+//@   ensures forwards-the-wrapped-node-result: err == g_err
+
+//@ func (n *retryableWrapper) ListKeys(ctx, prefix) (keys []*protocol.KeyComposite, err error)
+//@   safety off
+//@   opt frame=off
+//@   ghost opts []retry.Option
+//@   ghost g_keys []*protocol.KeyComposite
+//@   ghost g_err error
+//@   at call retryOptions#1: assert policy-for-this-context: callarg1 == ctx
+//@   at after call retryOptions#1: ghost opts := callresult
+//@   at call DoWithData#1: assert uses-the-retry-policy: sameBacking(callarg1, opts) && len(callarg1) == len(opts)
+//@   at after call DoWithData#1: ghost g_keys := callresult0
+//@   at after call DoWithData#1: ghost g_err := callresult1
+//@   ensures returns-what-retry-returns: keys == g_keys && err == g_err
+
+//@ func (n *retryableWrapper) ListKeys$1() (keys []*protocol.KeyComposite, err error)
+//@   safety off
+//@   opt frame=off
+//@   ghost g_keys []*protocol.KeyComposite
+//@   ghost g_err error
+//@   at call ListKeys#1: assert same-arguments: callarg0 == ctx && callarg1 == prefix
+//@   at after call ListKeys#1: ghost g_keys := callresult0
+//@   at after call ListKeys#1: ghost g_err := callresult1
+//@   ensures forwards-the-wrapped-node-result: keys == g_keys && err == g_err
